@@ -332,7 +332,11 @@ func (rc *RunCtx) reproduces(u *ExecUniverse, ref CaseRef, row ObsRow) bool {
 	for _, v := range c.Vars {
 		loose = loose || multiMember(v.V)
 	}
-	for try := 0; try < 8; try++ {
+	tries := 4
+	if loose {
+		tries = 40
+	}
+	for try := 0; try < tries; try++ {
 		rec, err := run.ObserveCase(row.ID, c)
 		if err != nil {
 			return false
@@ -365,9 +369,40 @@ func multiMember(v wire.Value) bool {
 	return false
 }
 
+// scrubIDs blanks address-derived keyvalue ids (they differ between runs on
+// different copies of a document).
+func scrubIDs(xs []wire.Value) []wire.Value {
+	out := make([]wire.Value, len(xs))
+	for i, x := range xs {
+		out[i] = scrubID(x)
+	}
+	return out
+}
+
+func scrubID(v wire.Value) wire.Value {
+	switch v.T {
+	case "num":
+		if v.Rep == "i" && len(v.N.M) >= 1 {
+			if i, ok := v.N.Int64(); ok && (i > 4096 || i < -4096) {
+				return wire.Int(0)
+			}
+		}
+	case "arr":
+		return wire.Value{T: "arr", A: scrubIDs(v.A)}
+	case "obj":
+		o := make([]wire.Member, len(v.O))
+		for i, m := range v.O {
+			o[i] = wire.Member{K: m.K, V: scrubID(m.V)}
+		}
+		return wire.Value{T: "obj", O: o}
+	}
+	return v
+}
+
 func normObs(o wire.RunObs, loose ...bool) string {
 	o.Polls = 0
 	if len(loose) > 0 && loose[0] {
+		o.Query.Items = scrubIDs(o.Query.Items)
 		items := make([]string, len(o.Query.Items))
 		for i, x := range o.Query.Items {
 			b, _ := json.Marshal(x)
